@@ -49,6 +49,11 @@ CHECKS = {
     note="Trusted: TLC, Containers.tla as std semantics, drv_containers.cpp (placement-new object slots, counting allocator through the nmtools_malloc/nmtools_free macros, 0xA5 poisoning). Four defects repaired by fix: commits; either/maybe over non-trivial alternatives is a known finding; maybe/either/tuple value histories are not yet modelled.",
     technique="TLA+ state machine with hidden implementation state; TLC exhaustive exploration + transition-tour export; replay on real objects; trace validation by TLC",
     design="5/C19"),
+ "C20": dict(
+    text="NdArray.tla models an array object and a copy of it under resize / element write / copy / assign (both directions) with the kind described by what it may hold (dimension rule, element-count rule, constant shape, clipped bounds); TLC checks consistency, 'a refused resize changes nothing' and 'a write touches one element of one object' and exports one history per explored transition; the driver replays them on 12 ndarray_t shape x buffer kinds x both layouts and TraceNdArray.tla validates return value, shape, dim, size, every element by logical index and buffer-is-a-permutation after every action; seeded histories likewise.",
+    note="Trusted: TLC, NdArray.tla, drv_ndarray.cpp. Legacy classes, cast and mutable views are not yet driven. One configuration (clipped shape, column-major) is a known finding; the resize defect was repaired by a fix: commit.",
+    technique="TLA+ state machine; TLC exhaustive exploration + transition-tour export; replay on real objects; trace validation by TLC",
+    design="5/C20"),
 }
 
 NOT_APPLICABLE = {}
